@@ -2205,7 +2205,13 @@ def compare_pipeline(case, io, mo):
         G = get(t)
         if G is None:
             continue
-        r3 = _cmp_docs(case, io, dec_pipeline(G, given=True), None)
+        Gd = dec_pipeline(G, given=True)
+        r3 = _cmp_docs(case, io, Gd, None)
+        if r3 is not None and r3[0] != "amb" and t == "g851" and _in_rounding_band(Gd):
+            # fed with the implementation's own axis values the exact solver position of some item
+            # is within 1e-7 of a half-integer: the doubles may round it the other way (and every
+            # coordinate derived from it moves by one unit).  Rare (about 1 case in 20 000).
+            amb("rounding-band-given-axis")
         if r3 is None or r3[0] == "amb":
             if av == "amb":
                 amb("axis-alternative")
